@@ -181,6 +181,83 @@ def nets_ref(net, arrays):
     return nets.refeval(n2, arrays)
 
 
+def object_histories(run, ct, rng, count):
+    from cotengra import interface
+    pool = [n for n in nets.net_pool(rng, 30, nmin=3, nmax=5, weird=False) if n.K >= 2 and nets.connected(n)][:10]
+    for _ in range(count):
+        net = rng.choice(pool)
+        interface._PATH_CACHE.clear()
+        interface._CONTRACT_EXPR_CACHE.clear()
+        inp, out, size = net.c_inputs(), net.c_output(), net.c_sizes()
+        kind = rng.choice(["tree-mutated", "tree-mutated", "constants-mutated"])
+        d = {"net": net.to_json(), "kind": kind}
+        run.count()
+        run.nontrivial(("object-history", kind, net.eq(), rng.random()))
+        try:
+            with core.watchdog(120):
+                if kind == "tree-mutated":
+                    tree = ct.array_contract_tree(inp, out, size, optimize="greedy")
+                    steps = []
+                    for step in range(3):
+                        arrays = arrays_for(net, rng)
+                        got = value_of(ct.array_contract(arrays, inp, out, optimize=tree, cache_expression=True))
+                        unc = value_of(ct.array_contract(arrays, inp, out, optimize=tree, cache_expression=False))
+                        ex = ct.array_contract_expression(inp, out, size, optimize=tree, cache=True)
+                        gex = value_of(ex(*arrays))
+                        pth = ct.array_contract_path(inp, out, size, optimize=tree, cache=True)
+                        pthu = ct.array_contract_path(inp, out, size, optimize=tree, cache=False)
+                        inv = net._inv()
+                        fix = {inv[i]: si.project for i, si in tree.sliced_inds.items() if si.project is not None}
+                        ref = nets.refeval(net, arrays, fix=fix, keep_fixed_output=True)
+                        steps.append(sorted(tree.sliced_inds))
+                        for nm, g in (("array_contract(cache_expression=True)", got), ("array_contract(cache_expression=False)", unc),
+                                      ("array_contract_expression(cache=True)", gex)):
+                            if g.shape != ref.shape or not np.allclose(g, ref, rtol=1e-12, atol=1e-12):
+                                run.violation(f"{nm} with optimize=<tree> after the tree was changed in place (history of sliced sets "
+                                              f"{steps}) does not give the contraction the tree now denotes: eq={net.eq()}", d,
+                                              tags={"object-history", kind, "value"})
+                                raise StopIteration
+                        if tuple(map(tuple, pth)) != tuple(map(tuple, pthu)):
+                            run.violation(f"array_contract_path(optimize=<tree>, cache=True) returns {pth} but uncached {pthu} after the "
+                                          f"tree was changed in place: eq={net.eq()}", d, tags={"object-history", kind, "path"})
+                            raise StopIteration
+                        # change the very same object
+                        how = rng.choice(["project", "slice", "reconfigure", "restore"])
+                        free = [ix for ix in range(1, net.K + 1) if net.lab[ix] not in tree.sliced_inds and net.on(ix)]
+                        if how == "project" and free:
+                            ix = rng.choice(free)
+                            tree.remove_ind_(net.lab[ix], project=rng.randrange(net.dim(ix)))
+                        elif how == "slice" and free:
+                            tree.remove_ind_(net.lab[rng.choice(free)])
+                        elif how == "restore" and tree.sliced_inds:
+                            tree.restore_ind_(rng.choice(list(tree.sliced_inds)))
+                        else:
+                            tree.subtree_reconfigure_(subtree_size=3, maxiter=3, seed=rng.randrange(100))
+                else:
+                    if net.N < 3:
+                        continue
+                    cis = sorted(rng.sample(range(net.N), 2))
+                    arrays = arrays_for(net, rng)
+                    consts = {ci: arrays[ci] for ci in cis}         # the SAME array objects are handed over both times
+                    rest = [a for k_, a in enumerate(arrays) if k_ not in cis]
+                    for step in range(2):
+                        ex = ct.array_contract_expression(inp, out, size, optimize="greedy", constants=consts, cache=True)
+                        got = value_of(ex(*rest))
+                        ref = nets.refeval(net, arrays)
+                        if got.shape != ref.shape or not np.allclose(got, ref, rtol=1e-12, atol=1e-12):
+                            run.violation(f"array_contract_expression(constants=..., cache=True) built {'again after the constant arrays were '
+                                          'updated in place' if step else 'for the first time'} gives a wrong value: eq={net.eq()} "
+                                          f"constants at {cis}", d, tags={"object-history", kind, "value"})
+                            break
+                        for ci in cis:
+                            arrays[ci][...] = np.array([rng.randint(-3, 3) for _ in range(arrays[ci].size)],
+                                                       dtype=np.float64).reshape(arrays[ci].shape)
+        except StopIteration:
+            continue
+        except Exception as e:
+            run.violation(f"object history ({kind}) raised {core.exc_text(e)} eq={net.eq()}", d, tags={"object-history", kind, "raised"})
+
+
 ENTRIES = ["einsum", "array_contract", "array_contract_expression", "einsum_expression", "array_contract_path",
            "expression_with_constants", "mixed"]
 
@@ -219,6 +296,9 @@ def run(run):
                 continue
             cases.append(case)
             descs.append(d)
+    # an explicit ContractionTree (or optimizer object) as `optimize`, changed in place between calls; constants changed in
+    # place between two builds of an expression: the cached entry points must answer like the uncached ones
+    object_histories(run, ct, rng, 12 if quick else 120)
     # labels with colliding hashes, not canonicalised: every sequence of length 3 over the two calls
     cpool = collision_pool()
     for entry in ("array_contract", "array_contract_expression", "array_contract_path", "expression_with_constants"):
